@@ -127,3 +127,9 @@ Print Assumptions C11_early_transport_test_is_the_code's.
 Theorem C11_transportability_is_the_code's : forall i x jb, gen_is_transportable i x jb = is_transportable i x jb.
 Proof. exact gen_is_transportable_eq. Qed.
 Print Assumptions C11_transportability_is_the_code's.
+
+(* the test that decides whether a job's next operation may be offered at all (no PROCESSING record, an IDLE one left),
+   regenerated from possible_transition_utils.is_job_next_operation_free and job_type_utils.group_operations_by_state *)
+Theorem C11_next_operation_free_is_the_code's : forall jb, gen_is_job_next_operation_free jb = is_job_next_operation_free jb.
+Proof. exact gen_is_job_next_operation_free_eq. Qed.
+Print Assumptions C11_next_operation_free_is_the_code's.
